@@ -485,6 +485,9 @@ pub fn crash_gen(p: &mut Profile) {
         }
         "C05" => {
             g.template_pct = 40;
+            // a backend fault before the crash: what a failed operation
+            // leaves behind must not damage synced data either
+            p.oracles.seq_fault_pct = 12;
             g.par_pct = 25;
             g.max_clients = 3;
             g.racy_discard_pct = 30;
